@@ -25,7 +25,7 @@ import (
 
 type c10Case struct {
 	State  string `json:"state"`                 // paused | queued | running | completing | finished
-	Intr   string `json:"intruder"`              // none | cancel | update | new-same-root | new-other-root | new-bad-selector
+	Intr   string `json:"intruder"`              // none | cancel | update | new-same-root | new-other-root | new-bad-selector | new-own-id-same-root
 	UpHook string `json:"update_hook,omitempty"` // noop | unpause | error
 	Twice  bool   `json:"twice,omitempty"`
 }
@@ -103,6 +103,17 @@ func c10Run(cs c10Case) *c10Obs {
 				ha.TerminateWithError(errors.New("update refused"))
 			}
 		})
+		// P2's own request (fresh id) pauses itself at its second block and stays in progress: whatever it has
+		// traversed must not count as "already sent" for P1
+		nP2 := 0
+		r.GS.RegisterOutgoingBlockHook(func(p peer.ID, rq graphsync.RequestData, b graphsync.BlockData, ha graphsync.OutgoingBlockHookActions) {
+			if p == p2.ID && rq.ID() == harness.MkID(77) {
+				nP2++
+				if nP2 == 2 {
+					ha.PauseResponse()
+				}
+			}
+		})
 		note := func(kind string, p peer.ID, id graphsync.RequestID, extra string) {
 			if p == p1.ID && id == x {
 				o.notes = append(o.notes, kind+extra)
@@ -154,6 +165,9 @@ func c10Run(cs c10Case) *c10Obs {
 			mk(root(other))
 		case "new-bad-selector":
 			mk(gsmsg.NewRequest(x, d.Root.(cidlink.Link).Cid, basicnode.NewString("not a selector"), 1))
+		case "new-own-id-same-root":
+			// an ordinary request of P2's own (fresh id) for the same DAG: P1's response must not notice it
+			mk(gsmsg.NewRequest(harness.MkID(77), d.Root.(cidlink.Link).Cid, sel, 1))
 		}
 		if m != nil {
 			p2.Say(r.ID, *m)
@@ -239,7 +253,7 @@ func c10Judge(cs c10Case, o *c10Obs) (sig, what string) {
 		return "", ""
 	}
 	tag := cs.Intr + "/response-" + cs.State
-	if strings.HasPrefix(cs.Intr, "new-") {
+	if strings.HasPrefix(cs.Intr, "new-") && cs.Intr != "new-own-id-same-root" {
 		// one cause whatever the new request asks for: the table of responses is keyed by request id alone
 		sig, what = c10JudgeInner(cs, o, base, tag)
 		if sig != "" {
@@ -266,7 +280,7 @@ func c10JudgeInner(cs c10Case, o, base *c10Obs, tag string) (sig, what string) {
 func runC10(c *core.Ctx) {
 	var idx int64
 	for _, st := range []string{"paused", "queued", "running", "completing", "finished"} {
-		for _, intr := range []string{"cancel", "update", "new-same-root", "new-other-root", "new-bad-selector"} {
+		for _, intr := range []string{"cancel", "update", "new-same-root", "new-other-root", "new-bad-selector", "new-own-id-same-root"} {
 			hooks := []string{"noop"}
 			if intr == "update" {
 				hooks = []string{"noop", "unpause", "error"}
@@ -297,7 +311,7 @@ func runC10(c *core.Ctx) {
 
 func init() {
 	core.Register(&core.Prop{ID: "C10", Level: "model_checking",
-		Rule:        "P1's response parked in each lifecycle state (paused by a request hook; queued behind a blocker with one worker; running but held at a blocked send with a one-block memory allowance; completing-send with its messages held; finished) x P2's message carrying the same request id {cancel, update with an extension (update hook: none / unpause / error), new request for the same root, for another root, with an unparsable selector}, once or twice; afterwards held sends are released and a paused response is unpaused; a class is (state, reported state after P2's message)",
+		Rule:        "P1's response parked in each lifecycle state (paused by a request hook; queued behind a blocker with one worker; running but held at a blocked send with a one-block memory allowance; completing-send with its messages held; finished) x P2's message carrying the same request id {cancel, update with an extension (update hook: none / unpause / error), new request for the same root, for another root, with an unparsable selector} or an ordinary request of P2's own (fresh id) for the same DAG, once or twice; afterwards held sends are released and a paused response is unpaused; a class is (state, reported state after P2's message)",
 		Assumptions: []string{"differential oracle: the same scenario without P2's message; P1's output is compared after flattening the batching into messages", "event-level script (gated network), default schedule"},
 		Run:         runC10, QuickBudget: 200, ThoroughBudget: 600,
 		Replay: func(raw json.RawMessage) string {
